@@ -1,6 +1,7 @@
 import ServlinVerif.Props.C04
 import ServlinVerif.Props.C04Pipeline
 import ServlinVerif.Props.C04Steps
+import ServlinVerif.Props.C04Pool
 open Servlin.C04
 #print axioms C04_runs_per_request
 #print axioms C04_legacy_twice
@@ -21,3 +22,9 @@ open Servlin.C04S
 #print axioms step_good
 #print axioms step_upload
 #print axioms step_expecting
+#print axioms Servlin.Pool.pool_inv
+#print axioms Servlin.Pool.C04_pool_progress
+#print axioms Servlin.Pool.C04_pool_drains
+#print axioms Servlin.Pool.C04_pool_quiescent
+#print axioms Servlin.Pool.C04_pool_legacy_stuck
+#print axioms Servlin.Pool.C04_pool_scenario
